@@ -1251,12 +1251,12 @@ class Emitter:
         """(template, argument expressions, stateful) if `e` is an effect of the table, else None"""
         cfg = self.cfg
         if e[0] == "try":
-            inner = self.effect_of(e[1])
-            if inner is not None:
-                return inner
             e1 = e[1]
             if self.rust_text(e1) in cfg.get("try_exprs", {}):
                 return (cfg["try_exprs"][self.rust_text(e1)], [], False)
+            inner = self.effect_of(e[1])
+            if inner is not None:
+                return inner
             if e1[0] == "call" and e1[1][0] == "path" and self.path_text(e1[1][1]) in cfg.get("try_calls", {}):
                 return (cfg["try_calls"][self.path_text(e1[1][1])], [a for a in e1[2] if not self.is_parser(a)], False)
             return None
@@ -1486,6 +1486,11 @@ class Emitter:
                 raise Untranslatable("macro " + e[1])
             if e[0] == "return":
                 return self.o_return(e)
+            if e[0] == "mcall" and e[2] == "insert" and e[1][0] == "path" and len(e[1][1]) == 1 and len(e[3]) == 2 \
+                    and e[1][1][0] in self.cfg.get("map_vars", []):
+                # a map the table declares: kept as the list of its insertions, in order
+                var = self.v(e[1][1][0])
+                return self.o_seq(list(e[3]), lambda vs: f"let {var} := {var} ++ [({self.ex(vs[0])}, {self.ex(vs[1])})]\n{cont()}")
             if e[0] == "mcall" and e[2] == "push" and e[1][0] == "path" and len(e[1][1]) == 1 and len(e[3]) == 1:
                 var = self.v(e[1][1][0])
                 return self.o_ex(e[3][0], lambda v: f"let {var} := {var} ++ [{v}]\n{cont()}")
@@ -1509,24 +1514,31 @@ class Emitter:
             key = self.rust_text(s[2])
             counts = self.cfg.get("for_counts", {})
             lvars = self.cfg.get("loop_vars")
-            if key not in counts or not lvars or s[1][0] != "pwild":
+            unused = s[1][0] == "pwild" or (s[1][0] == "pvar" and s[1][1].startswith("_"))
+            if key not in counts or not lvars or not unused:
                 raise Untranslatable("loop form in outcome mode")
             idx = self.nloops
             self.nloops += 1
             lname = f"{self.name}_loop{idx}" if idx else f"{self.name}_loop"
             params = self.cfg["params"]
+            stateful = self.cfg.get("stateful", True)
             pnames = [q for q, _ in params if q != "bs"]
             vnames = [n for n, _ in lvars]
             tup = vnames[0] if len(vnames) == 1 else "(" + ", ".join(vnames) + ")"
             tty = lvars[0][1] if len(lvars) == 1 else "(" + " × ".join(t for _, t in lvars) + ")"
-            call = lambda n: " ".join([lname] + pnames + ["bs"] + vnames + [n])   # noqa: E731
+            st = ["bs"] if stateful else []
+            call = lambda n: " ".join([lname] + pnames + st + vnames + [n])   # noqa: E731
             body = self.o_block(s[3][1], lambda v: call("n"))
-            sig = " ".join(f"({q} : {t})" for q, t in params if q != "bs") + " (bs : Bytes) " + " ".join(f"({n} : {t})" for n, t in lvars)
+            imp = (self.cfg.get("implicit", "") + " ") if self.cfg.get("implicit") else ""
+            sig = imp + " ".join(f"({q} : {t})" for q, t in params if q != "bs") + (" (bs : Bytes) " if stateful else " ") + " ".join(f"({n} : {t})" for n, t in lvars)
+            rty = f"({tty} × Bytes)" if stateful else tty
+            base = f"({tup}, bs)" if stateful else tup
             self.aux.append(
-                f"def {lname} {sig} : Nat → Outcome ({tty} × Bytes)\n"
-                f"  | 0 => .ok ({tup}, bs)\n"
+                f"def {lname} {sig} : Nat → Outcome ({rty})\n"
+                f"  | 0 => .ok ({base})\n"
                 f"  | n + 1 =>\n{indent(body, 4)}\n")
-            return f"(({call('(' + counts[key] + ')')}).bind fun ({tup}, bs) =>\n{cont()})"
+            bindpat = f"({tup}, bs)" if stateful else tup
+            return f"(({call('(' + counts[key] + ')')}).bind fun {bindpat} =>\n{cont()})"
         raise Untranslatable("statement kind in outcome mode: " + kind)
 
     def loop(self, c, body, rest, k, scope):
